@@ -204,13 +204,16 @@ PROPS = {
     "C09": dict(
         rule="generated FilePreamble values (versions 0..255, private version present/absent, 1..8 sets, every subset of optional members, full-width integers, arbitrary opcode/rr-type "
              "lists, UTF-8 text, collection parameters absent/empty/partial/full) written through CdnsExporter and through FilePreamble::write, read back by CdnsReader / "
-             "FilePreamble::read (also into a previously used object) and by the independent parser; member-for-member equality. Non-trivial: >=2 sets or an optional member set "
-             "or private version absent.",
+             "FilePreamble::read (also into a previously used object) and by the independent parser; member-for-member equality. Over histories (hist_c09): generated exporter "
+             "histories with rotations, blocks written in between, parameter sets added and activated - the preamble of EVERY output, as interpreted by the independent reader, equals the "
+             "preamble as constructed (with the sets known when that output's header was written). Non-trivial: >=2 sets or an optional member set or private version absent; "
+             "histories: >=2 outputs with blocks.",
         level_text="round trip over generated preambles, library reader and independent reader",
         level_note="list members of CollectionParameters are plain vectors in the API: empty == absent",
         technique="property-based testing: round-trip with independent-reader differential",
         assumptions=[],
-        jobs=[dict(harness="reread", prop="c09_preamble", cases=(120000, 2000000), size=(30, 30))],
+        jobs=[dict(harness="reread", prop="c09_preamble", cases=(120000, 2000000), size=(30, 30)),
+              dict(harness="hist", prop="hist_c09", cases=(8000, 160000), size=(30, 60))],
     ),
 
     "C11": dict(
